@@ -25,6 +25,8 @@ type lopt struct{}
 
 var errNode = errors.New("node failed (by the case)")
 
+const panicMsg = "unit panics (by the case)"
+
 // ---------------------------------------------------------------- generator
 
 type genState struct {
@@ -88,6 +90,13 @@ func (g *genState) stages(depth int, path []int, sub bool) [][]*GNode {
 					t.Calls = append(t.Calls, &GCall{UID: g.uid, Natives: r.Range(1, 3), Fails: r.Chance(1, 12),
 						DelayUs: r.Intn(300), Chunks: r.Range(1, 3)})
 				}
+				// a failing tool call may fail by panicking (not the first of several calls: the ToolsNode runs
+				// that one on its own goroutine and would itself panic while the other calls are still running)
+				for i, cl := range t.Calls {
+					if cl.Fails && (i > 0 || len(t.Calls) == 1) && r.Chance(1, 2) {
+						cl.Panics = true
+					}
+				}
 				// a call of a tool the node does not have (answered by the UnknownToolsHandler); the tool
 				// list handed over at call time instead of at construction
 				if r.Chance(1, 4) {
@@ -104,6 +113,9 @@ func (g *genState) stages(depth int, path []int, sub bool) [][]*GNode {
 				n.SubDag = r.Chance(1, 4)
 				g.subs = append(g.subs, p)
 				n.Stages = g.stages(depth+1, p, true)
+				if g.store && r.Chance(1, 3) {
+					n.Stages = g.addStops(n.Stages)
+				}
 			default:
 				n.Kind = "lambda"
 				n.Natives = []int{1, 1, 1, 2, 4, 8, 8}[r.Intn(7)]
@@ -111,7 +123,12 @@ func (g *genState) stages(depth int, path []int, sub bool) [][]*GNode {
 					n.Natives = r.Range(1, 15)
 				}
 				n.Fails = r.Chance(1, 18)
+				// a third of the failing nodes fail by panicking (eino contains the panic: the node ends with an error)
+				n.Panics = n.Fails && r.Chance(1, 3)
 				n.SelfCB = n.Natives == 1 && r.Chance(1, 8)
+				if n.SelfCB {
+					n.Panics = false // a component that fires its callbacks itself answers for its own panics
+				}
 				if g.store && r.Chance(1, 7) {
 					// asks for an interrupt (compose.InterruptAndRerun) the first one or two times it executes
 					n.Intr = 1
@@ -147,6 +164,84 @@ func (g *genState) stages(depth int, path []int, sub bool) [][]*GNode {
 	return out
 }
 
+// isStop: the stage is a configured interrupt point (no node of the graph)
+func isStop(st []*GNode) bool { return len(st) == 1 && st[0].Kind == "stop" }
+
+// intrKeys: the node keys a graph level names in WithInterruptBeforeNodes / WithInterruptAfterNodes
+func intrKeys(stages [][]*GNode) (before, after []string) {
+	for _, st := range stages {
+		if isStop(st) {
+			for _, k := range st[0].Before {
+				before = append(before, nodeKey(k))
+			}
+			for _, k := range st[0].After {
+				after = append(after, nodeKey(k))
+			}
+		}
+	}
+	return
+}
+
+// intrOpts: the compile options of a graph level with interrupt points
+func intrOpts(stages [][]*GNode) []compose.GraphCompileOption {
+	var out []compose.GraphCompileOption
+	b, a := intrKeys(stages)
+	if len(b) > 0 {
+		out = append(out, compose.WithInterruptBeforeNodes(b))
+	}
+	if len(a) > 0 {
+		out = append(out, compose.WithInterruptAfterNodes(a))
+	}
+	return out
+}
+
+// quiet: no execution in the stage can ask for an interrupt (what an interrupt point after it needs:
+// the interrupt of a node of the stage would absorb the configured one)
+func quiet(st []*GNode) bool {
+	for _, n := range st {
+		if (n.Kind != "lambda" && n.Kind != "pass") || n.Intr > 0 {
+			return false
+		}
+	}
+	return true
+}
+
+// addStops puts configured interrupt points between the stages of one graph level
+func (g *genState) addStops(stages [][]*GNode) [][]*GNode {
+	r := g.r
+	var out [][]*GNode
+	keysOf := func(st []*GNode) []int {
+		var ks []int
+		for _, n := range st {
+			if r.Chance(1, 2) {
+				ks = append(ks, n.Key)
+			}
+		}
+		if len(ks) == 0 {
+			ks = []int{st[r.Intn(len(st))].Key}
+		}
+		return ks
+	}
+	for i, st := range stages {
+		if r.Chance(1, 4) {
+			g.uid++
+			stop := &GNode{UID: g.uid, Kind: "stop", Intr: 1}
+			canAfter := i > 0 && quiet(stages[i-1])
+			switch {
+			case canAfter && r.Chance(1, 3):
+				stop.After = keysOf(stages[i-1])
+			case canAfter && r.Chance(1, 3):
+				stop.After, stop.Before = keysOf(stages[i-1]), keysOf(st)
+			default:
+				stop.Before = keysOf(st)
+			}
+			out = append(out, []*GNode{stop})
+		}
+		out = append(out, st)
+	}
+	return out
+}
+
 func sameStage(st []*GNode, n *GNode) bool {
 	for _, m := range st {
 		if m == n {
@@ -172,6 +267,10 @@ func genGraph(r *lib.Rng, tier string) *Case {
 	c.Store = r.Chance(1, 2)
 	g.store = c.Store
 	c.Stages = g.stages(0, nil, false)
+	// configured interrupt points (WithInterruptBeforeNodes / WithInterruptAfterNodes) at the top level
+	if c.Store && r.Chance(1, 3) {
+		c.Stages = g.addStops(c.Stages)
+	}
 	if c.Store && totalIntr(c) == 0 && r.Chance(2, 3) {
 		var cands []*GNode
 		allNodes(c.Stages, func(n *GNode, _ int) {
@@ -310,6 +409,9 @@ func (c *Case) optsFor(k int) []GOpt {
 func chainable(stages [][]*GNode) bool {
 	prevPar := false
 	for _, st := range stages {
+		if isStop(st) {
+			continue
+		}
 		if len(st) > 1 && prevPar {
 			return false
 		}
@@ -431,6 +533,9 @@ func (rr *runRec) body(n *GNode, in vmap) (vmap, error) {
 		rr.mu.Lock()
 		rr.execs[id] = append(rr.execs[id], bodyRec{In: inS, Failed: true})
 		rr.mu.Unlock()
+		if n.Panics {
+			panic(panicMsg)
+		}
 		return nil, errNode
 	}
 	out := vmap{outKey: outKey + "[" + inS + "]"}
@@ -547,6 +652,9 @@ func (rr *runRec) build(stages [][]*GNode, shared map[int]*compose.Lambda) (*com
 	g := compose.NewGraph[vmap, vmap]()
 	prev := []string{compose.START}
 	for _, st := range stages {
+		if isStop(st) {
+			continue
+		}
 		var cur []string
 		for _, n := range st {
 			key := nodeKey(n.Key)
@@ -571,9 +679,7 @@ func (rr *runRec) build(stages [][]*GNode, shared map[int]*compose.Lambda) (*com
 					return nil, e
 				}
 				o := []compose.GraphAddNodeOpt{compose.WithNodeName(unitName(n.UID))}
-				if n.SubDag {
-					o = append(o, compose.WithGraphCompileOptions(compose.WithNodeTriggerMode(compose.AllPredecessor)))
-				}
+				o = append(o, subCompileOpts(n, n.SubDag)...)
 				err = g.AddGraphNode(key, sub, o...)
 			default:
 				err = fmt.Errorf("bad node kind %q", n.Kind)
@@ -598,6 +704,19 @@ func (rr *runRec) build(stages [][]*GNode, shared map[int]*compose.Lambda) (*com
 	return g, nil
 }
 
+// subCompileOpts: the compile options of a nested graph node (trigger mode, interrupt points)
+func subCompileOpts(n *GNode, dag bool) []compose.GraphAddNodeOpt {
+	var co []compose.GraphCompileOption
+	if dag {
+		co = append(co, compose.WithNodeTriggerMode(compose.AllPredecessor))
+	}
+	co = append(co, intrOpts(n.Stages)...)
+	if len(co) == 0 {
+		return nil
+	}
+	return []compose.GraphAddNodeOpt{compose.WithGraphCompileOptions(co...)}
+}
+
 type compilable interface {
 	Compile(ctx context.Context, opts ...compose.GraphCompileOption) (compose.Runnable[vmap, vmap], error)
 }
@@ -614,6 +733,9 @@ func (rr *runRec) buildTop(c *Case) (compilable, error) {
 	ch := compose.NewChain[vmap, vmap]()
 	shared := map[int]*compose.Lambda{}
 	for _, st := range c.Stages {
+		if isStop(st) {
+			continue
+		}
 		if len(st) == 1 {
 			n := st[0]
 			o := []compose.GraphAddNodeOpt{compose.WithNodeKey(nodeKey(n.Key)), compose.WithNodeName(unitName(n.UID))}
@@ -627,9 +749,7 @@ func (rr *runRec) buildTop(c *Case) (compilable, error) {
 				if err != nil {
 					return nil, err
 				}
-				if n.SubDag {
-					o = append(o, compose.WithGraphCompileOptions(compose.WithNodeTriggerMode(compose.AllPredecessor)))
-				}
+				o = append(o, subCompileOpts(n, n.SubDag)...)
 				ch.AppendGraph(sub, o...)
 			default:
 				return nil, fmt.Errorf("bad node kind %q in a chain", n.Kind)
@@ -650,9 +770,7 @@ func (rr *runRec) buildTop(c *Case) (compilable, error) {
 				if err != nil {
 					return nil, err
 				}
-				if n.SubDag {
-					o = append(o, compose.WithGraphCompileOptions(compose.WithNodeTriggerMode(compose.AllPredecessor)))
-				}
+				o = append(o, subCompileOpts(n, n.SubDag)...)
 				p.AddGraph(out, sub, o...)
 			default:
 				return nil, fmt.Errorf("bad node kind %q in a chain", n.Kind)
@@ -693,6 +811,9 @@ func (rr *runRec) buildWF(stages [][]*GNode, shared map[int]*compose.Lambda) (*c
 		}
 	}
 	for _, st := range stages {
+		if isStop(st) {
+			continue
+		}
 		var cur []pred
 		for _, n := range st {
 			key := nodeKey(n.Key)
@@ -717,9 +838,7 @@ func (rr *runRec) buildWF(stages [][]*GNode, shared map[int]*compose.Lambda) (*c
 					return nil, e
 				}
 				o := []compose.GraphAddNodeOpt{compose.WithNodeName(unitName(n.UID))}
-				if n.SubDag && n.Typed == "tools" {
-					o = append(o, compose.WithGraphCompileOptions(compose.WithNodeTriggerMode(compose.AllPredecessor)))
-				}
+				o = append(o, subCompileOpts(n, n.SubDag && n.Typed == "tools")...)
 				wn = wf.AddGraphNode(key, sub, o...)
 			default:
 				return nil, fmt.Errorf("bad node kind %q", n.Kind)
@@ -850,6 +969,11 @@ func (ps *planSt) outcome(n *GNode, opts []GOpt) int {
 		if n.Fails {
 			return outFail
 		}
+	case "stop":
+		// a configured interrupt point the run arrives at: it stops here once
+		if ps.left[n.UID] > 0 {
+			return outIntr
+		}
 	case "sub":
 		return ps.graphOutcome(n.Stages, subOpts(n.Key, opts))
 	case "tools":
@@ -913,7 +1037,7 @@ func (ps *planSt) advance(stages [][]*GNode, opts []GOpt) {
 				continue
 			}
 			switch n.Kind {
-			case "lambda":
+			case "lambda", "stop":
 				ps.left[n.UID]--
 			case "sub":
 				ps.advance(n.Stages, subOpts(n.Key, opts))
@@ -938,7 +1062,7 @@ func optsOK(stages [][]*GNode, opts []GOpt) bool {
 			var hit *GNode
 			for _, st := range stages {
 				for _, n := range st {
-					if n.Key == p[0] {
+					if n.Kind != "stop" && n.Key == p[0] {
 						hit = n
 					}
 				}
@@ -996,6 +1120,11 @@ func (x *expectation) graph(uid int, stages [][]*GNode, opts []GOpt, path []int)
 			}
 		}
 		for _, n := range st {
+			if n.Kind == "stop" {
+				// no unit: the graph of this level is interrupted here (once)
+				note(x.ps.outcome(n, opts))
+				continue
+			}
 			p := append(append([]int{}, path...), n.Key)
 			x.paths[n.UID], x.kind[n.UID], x.node[n.UID] = p, n.Kind, n
 			if x.ps.done[n.UID] {
@@ -1043,6 +1172,22 @@ func (x *expectation) graph(uid int, stages [][]*GNode, opts []GOpt, path []int)
 		}
 	}
 	return outOK
+}
+
+// anyPanics: some unit of the case fails by panicking
+func anyPanics(c *Case) bool {
+	found := false
+	allNodes(c.Stages, func(n *GNode, _ int) {
+		if n.Panics {
+			found = true
+		}
+		for _, cl := range n.Calls {
+			if cl.Panics {
+				found = true
+			}
+		}
+	}, 0)
+	return found
 }
 
 func allNodes(stages [][]*GNode, f func(n *GNode, depth int), depth int) {
@@ -1224,10 +1369,21 @@ func runGraph(c *Case) lib.Result {
 		// an eager run leaves tasks behind; they are over when the number of goroutines is back
 		// to what it was (the process-wide handler list must not be touched before that)
 		nG := runtime.NumGoroutine()
+		if c.Eager {
+			// every task of a run logs the end of its executor under a mutex of the (verif-tagged)
+			// hand-off trace of compose/verif_c03_on.go; reading that log afterwards orders the
+			// harness after everything a finished task did - also a task the run left behind that never
+			// reached a node body (a nested graph stopped by an interrupt point or a rejected option)
+			compose.VerifC03Begin(0, true)
+			defer compose.VerifC03End()
+		}
 		quiesce := func() {
 			deadline := time.Now().Add(10 * time.Second)
 			for runtime.NumGoroutine() > nG && time.Now().Before(deadline) {
 				time.Sleep(500 * time.Microsecond)
+			}
+			if c.Eager {
+				_ = compose.VerifC03Events()
 			}
 		}
 		mkOpts := func() []compose.GraphCompileOption {
@@ -1238,6 +1394,7 @@ func runGraph(c *Case) lib.Result {
 			if c.Store {
 				copts = append(copts, compose.WithCheckPointStore(&memStore{m: map[string][]byte{}}))
 			}
+			copts = append(copts, intrOpts(c.Stages)...)
 			return copts
 		}
 		// baseline: the same graph, the same sequence of runs, without any handler
@@ -1526,7 +1683,12 @@ func runGraph(c *Case) lib.Result {
 
 	// ---- distribution
 	nNodes, maxPar, depth, nShared, nSub := 0, 0, 0, 0, 0
+	nStops := 0
 	allNodes(c.Stages, func(n *GNode, d int) {
+		if n.Kind == "stop" {
+			nStops++
+			return
+		}
 		nNodes++
 		if d > depth {
 			depth = d
@@ -1610,6 +1772,12 @@ func runGraph(c *Case) lib.Result {
 	if !optsOKDeep(c.Stages, c.Opts) {
 		res.Tags = append(res.Tags, "bad-designation")
 	}
+	if anyPanics(c) {
+		res.Tags = append(res.Tags, "panicking-unit")
+	}
+	if nStops > 0 {
+		res.Tags = append(res.Tags, fmt.Sprintf("interrupt-points:%d", nStops))
+	}
 	return res
 }
 
@@ -1631,6 +1799,9 @@ func copyMap(m vmap) vmap {
 // graphIO walks one graph level; cur is what the level was given; returns what it produced
 func (v *valSpec) graphIO(c *Case, run oneRun, x *expectation, stages [][]*GNode, cur vmap, keyed bool) (vmap, bool) {
 	for _, st := range stages {
+		if isStop(st) {
+			continue
+		}
 		var outs []vmap
 		okAll := true
 		for _, n := range st {
@@ -1817,6 +1988,20 @@ func checkRun(c *Case, x *expectation, run oneRun, first bool, specs map[int]HSp
 					want = "error"
 				}
 			}
+			// a unit that fails by panicking ends with the error eino makes of the panic; an enclosing
+			// unit reports the error of one of its failing parts (which one depends on the schedule)
+			if want == "failure" {
+				switch {
+				case x.node[uid] != nil && x.node[uid].Kind == "lambda" && x.node[uid].Panics,
+					x.calls[uid] != nil && x.calls[uid].Panics:
+					want = "panic"
+				case x.node[uid] != nil && x.node[uid].Kind == "lambda", x.calls[uid] != nil:
+				default:
+					if e.Payload == "panic" && anyPanics(c) {
+						want = "panic"
+					}
+				}
+			}
 			e.L = lblErr
 			if e.Payload != want {
 				e.L = lblOther
@@ -1944,6 +2129,8 @@ func coqRStages(stages [][]*GNode) string {
 				ns = append(ns, fmt.Sprintf("RLambda %d %d %d %d %s %d%%nat", n.UID, n.Key, n.UID, n.Natives, lib.CoqBool(n.Fails), n.Intr))
 			case "pass":
 				ns = append(ns, fmt.Sprintf("RPass %d %d", n.UID, n.Key))
+			case "stop":
+				ns = append(ns, fmt.Sprintf("RStop %d%%nat", n.Intr))
 			case "sub":
 				ns = append(ns, fmt.Sprintf("RSub %d %d %d %s", n.UID, n.Key, n.UID, coqRStages(n.Stages)))
 			case "tools":
